@@ -66,9 +66,11 @@ def build_case(cid, rng, selector, unimock=False, force_async=False, no_send=Fal
         L.append("#[allow(unused_imports)] use ::core::convert::{AsMut as _, Into as _, From as _};")
     # supertraits that are themselves entraited: `Impl<T>: Sup` then does not follow from `T: Sup` alone
     sup = rng.choice([None, None, "ref", "self", "borrow"]) if not dyn else None
+    # ... and may declare a method named like one of the subtrait's own methods (callers then have to say which one they mean)
+    supname = t.methods[0].name if (sup and rng.random() < 0.4) else "sup"
     if sup:
-        L.append("#[::entrait::entrait%s] pub trait Sup%s { fn sup(&self) -> i32; }" % (
-            {"ref": "(delegate_by = ref)", "self": "", "borrow": "(delegate_by = Borrow)"}[sup], ": 'static" if sup != "self" else ""))
+        L.append("#[::entrait::entrait%s] pub trait Sup%s { fn %s(&self) -> i32; }" % (
+            {"ref": "(delegate_by = ref)", "self": "", "borrow": "(delegate_by = Borrow)"}[sup], ": 'static" if sup != "self" else "", supname))
         t.supers.append("Sup")
     L.append("#[::entrait::entrait(%s)] /*@inv*/" % ", ".join(opts))
     L.append(t.source())
@@ -92,7 +94,7 @@ def build_case(cid, rng, selector, unimock=False, force_async=False, no_send=Fal
     L += impl_for("Prov", "Prov", "self.name")
     if sup:
         for ty in ("Prov", "ProvNotSync"):
-            L.append("impl Sup for %s { fn sup(&self) -> i32 { 1 } }" % ty)
+            L.append("impl Sup for %s { fn %s(&self) -> i32 { 1 } }" % (ty, supname))
             if sup == "ref":
                 L.append("impl ::core::convert::AsRef<dyn Sup> for %s { fn as_ref(&self) -> &(dyn Sup + 'static) { self } }" % ty)
             if sup == "borrow":
@@ -165,7 +167,8 @@ def build_case(cid, rng, selector, unimock=False, force_async=False, no_send=Fal
         D.append('    let r = %s; ::vrt::result(&r); ::vrt::kv("rtn", ::vrt::tn(&r)); ::vrt::record_polls();' % wrap(dcall))
         D.append('    ::vrt::phase("impl:%s");' % m.name)
         D += ["    " + s for s in s2]
-        D.append('    let r = %s; ::vrt::result(&r); ::vrt::kv("rtn", ::vrt::tn(&r)); ::vrt::record_polls();' % wrap("app.%s(%s)" % (m.cname(), ", ".join(e2))))
+        icall = "app.%s(%s)" % (m.cname(), ", ".join(e2)) if m.name != supname else "<_ as %s>::%s(&app%s)" % (tr, m.cname(), "".join(", " + e for e in e2))
+        D.append('    let r = %s; ::vrt::result(&r); ::vrt::kv("rtn", ::vrt::tn(&r)); ::vrt::record_polls();' % wrap(icall))
         calls.append({"m": m.name, "fn": "%s::Prov::%s" % (cid, m.name), "args": d1, "async": m.is_async})
     D.append("}")
     sigs = [m.trait_sig().replace(m.name, "") for m in t.methods]
